@@ -102,6 +102,14 @@ pub fn field_values() -> Vec<DocVal> {
         DocVal::s("2.5"),
         DocVal::s("9223372036854775807"),
         DocVal::s("9223372036854775808"),
+        DocVal::s("00000000000000000042"),
+        DocVal::s("+0000000000000000000001"),
+        DocVal::s("-00000000000000000000"),
+        DocVal::s("0000000000000000000000009223372036854775807"),
+        DocVal::s("000000000000000000000000000002.5"),
+        DocVal::s("1_000"),
+        DocVal::s("0x10"),
+        DocVal::s("１"),
         DocVal::s("inf"),
         DocVal::s("NaN"),
         DocVal::s("abc"),
